@@ -108,3 +108,38 @@ func VerifC08_index_distinct() {
 		vReach("other-origin")
 	}
 }
+
+// one attester, one client, two origins with different index keys but the same anonymous origin
+// id: each origin gets the ID prescribed for it
+func VerifC08_index_per_origin_on_one_attester() {
+	vUnwind(110)
+	vUseModels("ecapi")
+	secret := vBytes("client_secret", 48, 48)
+	vAssume(secret[0] != 0)
+	keyA, keyB := vBytes("index_key_a", 48, 48), vBytes("index_key_b", 48, 48)
+	vAssume(keyA[0] != 0 && keyB[0] != 0 && !vBytesEq(keyA, keyB))
+	wantA, _ := c08Spec(secret, keyA)
+	wantB, _ := c08Spec(secret, keyB)
+	cache := &c06Cache{m: map[string]*ClientState{}}
+	attester := NewRateLimitedAttester(cache)
+	anon := []byte("aaaaaaaa")
+	run := func(indexKey, blind []byte, tag string) []byte {
+		issuer := c08Issuer(indexKey)
+		client := NewRateLimitedClientFromSecret(secret)
+		st, err := client.CreateTokenRequest(vBytesC("challenge"+tag, 0, 0), vBytes("nonce"+tag, 32, 32), blind, issuer.TokenKeyID(), issuer.TokenKey(), "a", issuer.NameKey())
+		vAssume(err == nil)
+		_, brk, err := issuer.Evaluate(st.Request().Marshal())
+		vAssume(err == nil)
+		vAssume(attester.VerifyRequest(*st.Request(), blind, st.ClientKey(), anon) == nil)
+		idx, err := attester.FinalizeIndex(st.ClientKey(), blind, brk, anon)
+		vAssert(err == nil, "index-computed"+tag)
+		return idx
+	}
+	b1, b2 := vBytes("blind_a", 48, 48), vBytes("blind_b", 48, 48)
+	vAssume(b1[0] != 0 && b2[0] != 0)
+	gotA := run(keyA, b1, "_a")
+	vAssert(vBytesEq(gotA, wantA), "first-origin-gets-its-id")
+	gotB := run(keyB, b2, "_b")
+	vAssert(vBytesEq(gotB, wantB), "second-origin-gets-its-own-id")
+	vReach("two-origins")
+}
